@@ -87,6 +87,11 @@ func genC18(r *Rng, tier string) *Plan {
 		if i > 0 && r.Chance(3, 4) {
 			e.Issuer = ents[r.Intn(i)].EffAlias()
 		}
+		if r.Chance(1, 12) {
+			// a large file with little in it (comment block / white space in front of some key): what is
+			// read of a file must not depend on how long the file is
+			e.Bulk, e.Style = r.Range(5, 200), r.Intn(40)
+		}
 		ents[i] = e
 	}
 	kinds := []string{"forest"}
